@@ -45,7 +45,7 @@ func (w *verifWorld) healthyRuntime(nInvokes int, payload string, nInternal int)
 			w.note(who, "got-invoke", id)
 			w.rtBodies = append(w.rtBodies, string(rec.body))
 			w.rtArns = append(w.rtArns, rec.hdr.Get("Lambda-Runtime-Invoked-Function-Arn"))
-			resp := verifNondetBytes("response payload")
+			resp := verifNondetPayload("response payload")
 			verifAssume(len(resp) <= 6*1024*1024+100)
 			w.rtResponses = append(w.rtResponses, string(resp))
 			r2 := w.runtimeResponse(who, id, resp)
@@ -143,7 +143,7 @@ func verifInitInvoke(nExt int, subs []string, nInv int, nInt int) {
 	for k := 1; k <= nInv; k++ {
 		id := fmt.Sprintf("req-%d", k)
 		before := w.seq
-		ev := verifNondetBytes("event payload")
+		ev := verifNondetPayload("event payload")
 		verifAssume(len(ev) <= 6*1024*1024+100)
 		res := w.doInvoke(id, ev)
 		verifAssert(res.failure == nil, "healthy invocation succeeds")
